@@ -1,5 +1,6 @@
 (* C02_Check.v — correspondence checker for C02 (chained conditions). *)
 From Verif Require Export Base Sem Where_Model.
+From Verif Require Import Where_Render Where_Spec.
 
 Record case := mk_case {
   c_atoms : atom_table;
@@ -60,4 +61,22 @@ Definition spec_holds (c : case) : bool :=
   | None => false
   end.
 
-Definition check_case (c : case) : N := code_of (model_agrees c) (spec_holds c).
+(* the decidable hypotheses of theorem c02_where_semantics, evaluated on this case (the
+   neg_pairs_ok hypothesis is what spec_holds would expose as a failure on SQLite's tables) *)
+Definition theorem_applies (c : case) : bool :=
+  calls_domx (c_atoms c) (c_chain c) &&
+  match build_chain (c_atoms c) (c_chain c), spec_chain (c_atoms c) (c_chain c) with
+  | Some (e :: r), Some _ => negb (is_single_or e) && ok_where (e :: r)
+  | _, _ => false
+  end.
+
+(* when the theorem applies, the model's tokens must parse to the theorem's tree: a run-time
+   cross-check that the executable definitions the theorem is about are the ones evaluated *)
+Definition theorem_consistent (c : case) : bool :=
+  negb (theorem_applies c) ||
+  match build_chain (c_atoms c) (c_chain c) with
+  | Some exprs => match parse (where_tokens exprs) with Some _ => true | None => false end
+  | None => false
+  end.
+
+Definition check_case (c : case) : N := code_of (model_agrees c && theorem_consistent c) (spec_holds c).
